@@ -564,7 +564,7 @@ pub fn run(ctx: &Ctx) {
     ctx.random("integers_random", ctx.pick(20_000, 200_000), || {
         (prop_oneof![any::<i64>().prop_map(|x| x as i128), any::<u64>().prop_map(|x| x as i128), any::<i64>().prop_map(|x| x as i128 * 3)], 0u8..6).prop_map(|(n, route)| BigInt { text: n.to_string(), route })
     }, bigint_oracle);
-    ctx.random("value_views", ctx.pick(40_000, 1_000_000), datum, views_oracle);
-    ctx.random("derive_vs_serde", ctx.pick(8_000, 150_000), nested, derive_oracle);
+    ctx.random("value_views", ctx.pick(150_000, 1_500_000), datum, views_oracle);
+    ctx.random("derive_vs_serde", ctx.pick(25_000, 250_000), nested, derive_oracle);
     ctx.random("serde_only_shapes", ctx.pick(20_000, 200_000), serde_only, serde_only_oracle);
 }
